@@ -17,7 +17,7 @@ RULE = ('directed corpus + full grid sign x magnitude pool x 22 prefixes (+forei
         'unit systems x return_int, then seeded random magnitudes; QemuImgInfo human texts composed '
         'from size spellings. non-trivial = admissible text with a prefix or a bit unit or a '
         'fractional magnitude, or an inadmissible text; distinct by (text, system, return_int)')
-REQUIRED_CLAUSES = ['float-result', 'int-result-exact', 'must-raise-ValueError',
+REQUIRED_CLAUSES = ['under-lazy-translation', 'documented-keyword-call', 'float-result', 'int-result-exact', 'must-raise-ValueError',
                     'qemu-size', 'unknown-system']
 ASSUMPTIONS = ['exact answer computed with fractions.Fraction from the generator components',
                'float results are compared within 4 ulp; integer results exactly, except where the '
@@ -108,8 +108,10 @@ def ulp_close(got, exact, ulps=4):
     return abs(Fraction(got) - exact) <= Fraction(tol)
 
 
-def evaluate(ctx, case):
+def _evaluate_plain(ctx, case):
     from oslo_utils import strutils
+    from vlib import callstyle
+    strutils = callstyle.proxy(strutils)
     kind = case['kind']
     if kind == 'stb':
         sign, mag, prefix, unit, system, rint = (case[k] for k in (
@@ -205,6 +207,10 @@ def evaluate(ctx, case):
         if (info.virtual_size, info.disk_size, info.cluster_size) != (
                 doc.get('virtual-size'), doc.get('actual-size'), doc.get('cluster-size')):
             ctx.fail('qemu-json', case, {'got': (info.virtual_size, info.disk_size, info.cluster_size)})
+
+
+from vlib import envmodes  # noqa: E402
+evaluate = envmodes.evaluate_with_modes(_evaluate_plain)
 
 
 def qemu_cases(rng, n):
